@@ -301,7 +301,7 @@ fn check_object(obj: &Object, c: &mut Case) -> Option<Vec<u8>> {
     Some(buf)
 }
 
-fn main() {
+pub fn main() {
     let mut ck = Check::new("C01", "exploration");
     ck.rule("Owned Commit/Tag/Tree/Blob values decoded from a byte tape (time classes: +-10^k, +-10^k+-1, extremes, uniform i64; whole-minute offsets below 100h incl. -0000; names/emails without <,>,LF and surrounding whitespace; canonical extra headers; 0..4 parents; sorted trees over an alphabet around '/'). Non-trivial: negative or >=11-digit time, multi-line extra header, >=2 parents, PGP signature, tree with prefix-related names, non-empty blob. Distinct by value hash.");
     ck.assume(&format!("id cross-check uses {}", Git::version()));
